@@ -73,6 +73,11 @@ def attach_all():
         def update_positions(self, vector_bundle, current_node, prev_node):
             if CTX:
                 CTX["walk"] = self
+                sched = CTX.get("step_schedule")
+                if sched is not None and not next(sched, True):
+                    # injected fault: this placement step fails (what exhausting the trial vectors does)
+                    CTX["stats"]["injected_step_failures"] = CTX["stats"].get("injected_step_failures", 0) + 1
+                    return False
             ok = orig(self, vector_bundle, current_node, prev_node)
             if CTX and ok:
                 eng = self.nonbond_matrix
